@@ -310,8 +310,6 @@ class Executor:
         except NoObject as e:
             return 'err no-object ' + str(e)
         except Exception as e:      # anything else is neither KeyError nor ValueError
-            if type(e) is Exception and str(e).startswith('No simplex ') and ' in filtration at index ' in str(e):
-                return 'rej'        # Filtration.orderOf/indexOf document a bare Exception for a simplex not present
             return 'crash:' + type(e).__name__
 
     def _run(self, line):
